@@ -307,7 +307,10 @@ Definition gstep (t : tid) (g : gstate) : gstate :=
     | KOp (OTrySpin m) :: _ => acquire g t l s m true
     | KOp (OUnlock m) :: _ => release g t l s m
     | KEndWith m :: _ => release g t l s m
-    | KOp (OIncr m) :: _ => advance g t l (set_tmp s (cells g m))
+    | KOp (OIncr m) :: _ =>
+        (* the counter is a plain C variable: touching it without holding its mutex is a data race *)
+        if nmem m (holding s) then advance g t l (set_tmp s (cells g m))
+        else set_thr g t (l, set_ub s)
     | KStore m :: _ => advance (set_cell g m (S (tmp s))) t l s
     | KOp (OSpawn u) :: _ =>
         match nth_error (thr g) u with
